@@ -235,6 +235,8 @@ func runC08(c *Ctx) {
 	// ---- R08.7
 	c.rule("R08.7", "a sink leaves the table only together with its close (no removal that leaves the caller's channel open for ever)")
 	c.removalClosesRule("R08.7")
+	c.rule("R08.10", "the caller receives a prefix of what the handler sent: no value is dropped by a test of its payload bytes")
+	c.valuesNotFiltered("R08.10")
 	c.rule("R08.9", "after the close notification the caller's channel is closed exactly when the buffer is empty (tested on the buffer itself, not on a value read earlier in the iteration)")
 	c.closeWhenDrained("R08.9")
 	c.rule("R08.8", "every streamed value is decoded into memory allocated for that value")
